@@ -73,13 +73,15 @@ type Engine struct {
 	cur        *exec // function activation being executed
 	freshRefs  map[*Term]bool
 	monCache   map[string]*monInfo
+	subNames   map[string]string // sanitised sub-object function name -> heap key of its field
+	instHints  []*Term
 }
 
 func NewEngine(p *Program) *Engine {
 	return &Engine{P: p, C: NewCtx(), heapSorts: map[string]*Sort{}, fnIDs: map[string]int{}, strLits: map[string]*Term{},
 		strLitVals: map[*Term]string{}, subAx: map[string]bool{}, typeTags: map[string]int{}, tagTypes: map[int]types.Type{},
 		Unverified: map[string]bool{}, ExternsUsed: map[string]bool{}, Inlines: map[string]bool{}, oblSeq: map[string]int{},
-		specCache: map[*Clause]*boundExpr{}, specFnCache: map[string]*specFn{}, MaxInline: 4, freshRefs: map[*Term]bool{}, monCache: map[string]*monInfo{}}
+		specCache: map[*Clause]*boundExpr{}, specFnCache: map[string]*specFn{}, MaxInline: 4, freshRefs: map[*Term]bool{}, monCache: map[string]*monInfo{}, subNames: map[string]string{}}
 }
 
 func (e *Engine) typeTag(t types.Type) *Term {
